@@ -48,9 +48,11 @@ def sym_grad(u):
 
 
 def div(u):
+    if u.div is not None:
+        return u.div
     if len(u.grad.shape) == 4:
         return jnp.einsum('ii...', u.grad)
-    return u.div
+    return u.grad[0]
 
 
 def dd(u):
